@@ -86,6 +86,22 @@ def track_of(scfg, create=True):
     return tr
 
 
+def retrack(old, new):
+    """The graph `old` was written out and read back as `new` between two
+    stages: M-stage goes on watching the re-read object against the same
+    reference model (input graph, input blocks compared by equality)."""
+    t = tracks()
+    tr = t.pop(id(old), None)
+    if tr is None:
+        return None
+    tr.scfg = new
+    tr.payload = {}
+    tr.reloaded = getattr(tr, "reloaded", 0) + 1
+    t[id(new)] = tr
+    core.CTX.hit("M-stage.retracked_after_reload")
+    return tr
+
+
 # ------------------------------------------------------------------ stage oracles
 
 def _lib_frame(tb):
